@@ -295,6 +295,20 @@ fn collect(specs: &[Spec]) -> (Vec<ClientCase>, Vec<Value>) {
                     }
                 }
             }
+            Spec::GP(sc) => {
+                let rhss = all_rhs(sc.n, sc.t, sc.k);
+                let mut grs = vec![];
+                for unit in work_units(sc, u128::MAX) {
+                    for_each_completion(sc, &rhss, &unit, &mut |gr| grs.push(gr));
+                }
+                for gr in grs {
+                    let mut ps = vec![];
+                    for_each_presentation(&gr, &mut |pres| ps.push(pres));
+                    for pres in ps {
+                        add(gr.clone(), pres, &mut out);
+                    }
+                }
+            }
             Spec::Scaled { deep } => {
                 for (i, f) in crate::scaled::families(*deep).iter().enumerate() {
                     add(f.g.clone(), crate::scaled::presentation(f, i), &mut out);
@@ -419,6 +433,15 @@ pub fn run(ctx: &Ctx) -> Outcome {
                     }
                 }
             }
+        }
+    }
+    // interactions of grammar shape and presentation: every grammar of two tiny scopes under every presentation
+    for sc in [Scope { n: 1, t: 2, p: 2, k: 2, symmetry: false, only_cyclic: false }, Scope { n: 2, t: 1, p: 2, k: 2, symmetry: false, only_cyclic: false }] {
+        let rhss = all_rhs(sc.n, sc.t, sc.k);
+        for unit in work_units(&sc, u128::MAX) {
+            for_each_completion(&sc, &rhss, &unit, &mut |gr| {
+                for_each_presentation(&gr, &mut |pres| texts.push(Case::new(gr.clone(), pres).rendered.source));
+            });
         }
     }
     // every short identifier (underscore-initial, letter-less, with digits) in every naming role
